@@ -129,7 +129,9 @@ namespace GeographicLib {
       r = hypot(sphi2, cphi2);
       sphi2 /= r; cphi2 /= r;
     }
-    bool polar = (cphi1 == 0);
+    // The azimuthal (polar) limit requires both parallels at the pole (phi1 and
+    // phi2 haven't been ordered yet)
+    bool polar = (cphi1 == 0 && cphi2 == 0);
     cphi1 = fmax(epsx_, cphi1);   // Avoid singularities at poles
     cphi2 = fmax(epsx_, cphi2);
     // Determine hemisphere of tangent latitude
